@@ -212,13 +212,17 @@ def run(rep: vlib.Reporter, tier: str, seed: int) -> None:
                            "deferred": {**info2, "cases": len(dc)}})
 
     specs, gstats = gen_specs(rng, 60 if big else 10)
+    from harness import daggen
+    specs += [daggen.gen_shared_upload(rng) for _ in range(8 if big else 2)]   # one uploaded table, several readers, the last one late
     dist: Dict[str, Any] = {"specs": len(specs), "runs": 0, "by_mode": {}, "left_threads": {}, "left_procs": 0,
                             "runs_leaving_store_keys": 0, "premature_drop_errors": 0}
     reps = 3 if big else 1
     for spec in specs:
         uni = Universe(spec, GateListener())
         plan = export_plan(uni.prepare(), uni)
-        planner_kf = bool(kf_tfs_partial_requirement(plan) or kf_framework_roundtrip(plan) or kf_tfs_missing(plan))
+        # the plan predicates describe link-free plans; in a joined plan both sources list the consumer as child by design (the run-time
+        # lookup follows the merge relation, Model/RoutingJ.v): the shared-upload family lies outside every recorded domain
+        planner_kf = False if spec.get("family") == "shared_upload" else bool(kf_tfs_partial_requirement(plan) or kf_framework_roundtrip(plan) or kf_tfs_missing(plan))
         fg = [s for s in plan["steps"] if s["kind"] == "FG"]
         fails: List[Optional[Tuple[str, str]]] = [None] + [(s["group"], s["names"][0]) for s in (fg if big else fg[-1:])]
         for mode_name in ("SYNC", "THREADING", "MULTIPROCESSING"):
